@@ -155,6 +155,17 @@ def check(ctx, rep):
     flt = sorted((norm(c.func), norm(g.ifs[0]) if g.ifs else '') for c in ups for x in c.args if isinstance(x, (ast.GeneratorExp, ast.ListComp, ast.SetComp)) for g in x.generators)
     rep.ob('commons.scalar-and-array-of-one-name', 'COMMON declarations are split by their bracket flag, one entry per declaration (a scalar and an array may share a name)',
            not keyed and flt == [('common_arrays.update', 'brackets'), ('common_scalars.update', 'not brackets')], 'declarations keyed by name: %s; filters %s' % (bool(keyed), flt), ctx.where(acv))
+    # a COMMON string is copied into the new string space wherever it lives: a string assigned from a literal points into the
+    # program code, which CHAIN replaces; copy_to reads it through the general accessor and stores it, unconditionally
+    ct = ctx.fn('pcbasic/basic/values/strings.py:StringSpace.copy_to')
+    flc = ctx.flow(ct)
+    rets = [r for r in own_nodes(ct) if isinstance(r, ast.Return)]
+    rep.floor('commons.strings-copied-wherever-they-live', len(rets), 1, 'returns of copy_to')
+    for r in rets:
+        v = r.value
+        ok = isinstance(v, ast.Call) and norm(v.func) == 'string_space.store' and len(v.args) == 1 and 'self.view(length, address)' in norm(v.args[0]) and not flc.facts(r)
+        rep.ob('commons.strings-copied-wherever-they-live', 'copy_to: %s' % short(r, 60), ok,
+               'a string that is not copied keeps its old pointer: after CHAIN it reads bytes of the new program (literal) or a closed file buffer (FIELD)', ctx.where(r))
     pc = ctx.fn(MEMORY + ':DataSegment.preserve_commons')
     ys = [n for n in own_nodes(pc) if isinstance(n, ast.Expr) and isinstance(n.value, ast.Yield)]
     rep.ob('commons.single-yield', 'preserve_commons yields once', len(ys) == 1, '', ctx.where(pc))
@@ -213,6 +224,9 @@ def variants(ctx):
         Va('chain-clears-outside-context', 'break', IMPL, in_fn('Implementation.chain_', _hoist_clear), expect='chain'),
         Va('chain-always-keeps-functions', 'break', IMPL,
            in_fn('Implementation.chain_', _always_keep_functions), expect='chain'),
+        Va('common-literal-strings-not-copied', 'break', 'pcbasic/basic/values/strings.py',
+           lambda tree: mu.insert_first(mu.find_def(tree, 'StringSpace.copy_to'), "if length == 0 or address < self._memory.var_start():\n    return length, address"),
+           expect='commons.strings-copied-wherever-they-live'),
         Va('commons-restored-before-strings', 'break', MEMORY, in_fn('DataSegment.preserve_commons', _rebuild_last), expect='commons.strings-rebuilt'),
         Va('stacks-reset-to-copies', 'break', INTERP,
            in_fn('Interpreter._clear_stacks', lambda fn: mu.replace_stmt(fn, mu.text_is('self.gosub_stack = []'), 'self.gosub_stack = list(self.gosub_stack)')),
